@@ -47,13 +47,89 @@ def find_decoder(py: PyRepo, fn: ast.FunctionDef, table_names):
     return out
 
 
+class InlineDecoder:
+    """the word decoder written in place in the loop that cuts the proof string into words: `acc` collects the letters of the
+    current word (with or without the closing letter), `letter` is the loop variable, which under `letter in <ls table>` is the
+    LAST letter of the word; the arithmetic sits in `loop`'s body"""
+    def __init__(self, fn, loop, acc, letter, acc_has_last):
+        self.fn, self.loop, self.acc, self.letter, self.acc_has_last = fn, loop, acc, letter, acc_has_last
+        self.name = fn.name
+        self.lineno = loop.lineno
+        self.col_offset = loop.col_offset
+
+
+def find_inline_decoder(fn: ast.FunctionDef, names):
+    """-> InlineDecoder | None"""
+    ls, ms = names['least-significant'], names['most-significant']
+    nested = {id(n) for g in ast.walk(fn) if isinstance(g, (ast.FunctionDef, ast.Lambda)) and g is not fn for n in ast.walk(g)}
+
+    def own(node):
+        return [n for n in ast.walk(node) if id(n) not in nested]
+
+    def subs(node, table):
+        return [n for n in own(node) if isinstance(n, ast.Subscript) and isinstance(n.value, ast.Name) and n.value.id == table and isinstance(n.ctx, ast.Load)]
+
+    mains = [lp for lp in own(fn) if isinstance(lp, ast.For) and isinstance(lp.target, ast.Name) and subs(lp, ls) and subs(lp, ms)]
+    # the outermost such loop
+    mains = [lp for lp in mains if not any(lp is not o and any(lp is x for x in ast.walk(o)) for o in mains)]
+    if len(mains) != 1:
+        return None
+    main = mains[0]
+    letter = main.target.id
+    accs = {}
+    # polarity of `letter in <ls>` at each accumulation `acc += letter`
+    def visit(stmts, pol):
+        for st in stmts:
+            if isinstance(st, ast.If):
+                t = st.test
+                p_ = None
+                neg = False
+                if isinstance(t, ast.UnaryOp) and isinstance(t.op, ast.Not):
+                    t, neg = t.operand, True
+                if isinstance(t, ast.Compare) and len(t.ops) == 1 and isinstance(t.left, ast.Name) and t.left.id == letter \
+                        and isinstance(t.comparators[0], ast.Name) and t.comparators[0].id == ls and isinstance(t.ops[0], (ast.In, ast.NotIn)):
+                    p_ = isinstance(t.ops[0], ast.In) != neg
+                visit(st.body, pol if p_ is None else p_)
+                visit(st.orelse, pol if p_ is None else (not p_))
+                # a branch that leaves the iteration fixes the polarity of what follows
+                if p_ is not None and st.body and isinstance(st.body[-1], (ast.Continue, ast.Return, ast.Raise, ast.Break)) and not st.orelse:
+                    pol = not p_
+                elif p_ is not None and st.orelse and isinstance(st.orelse[-1], (ast.Continue, ast.Return, ast.Raise, ast.Break)):
+                    pol = p_
+            elif isinstance(st, ast.AugAssign) and isinstance(st.op, ast.Add) and isinstance(st.target, ast.Name) \
+                    and isinstance(st.value, ast.Name) and st.value.id == letter:
+                accs.setdefault(st.target.id, set()).add(pol)
+            elif isinstance(st, (ast.For, ast.While, ast.With, ast.Try)):
+                visit(getattr(st, 'body', []), pol)
+    visit(main.body, None)
+    if len(accs) != 1:
+        return None
+    acc, pols = next(iter(accs.items()))
+    if pols == {None}:
+        has_last = True
+    elif pols == {False}:
+        has_last = False
+    else:
+        return None
+    # the accumulator starts empty
+    def empty(e):
+        return isinstance(e, ast.Constant) and e.value == '' or (isinstance(e, (ast.List, ast.Tuple)) and not e.elts)
+    inits = [n for n in own(fn) if isinstance(n, (ast.Assign, ast.AnnAssign)) and n.value is not None
+             and isinstance(n.targets[0] if isinstance(n, ast.Assign) else n.target, ast.Name)
+             and (n.targets[0] if isinstance(n, ast.Assign) else n.target).id == acc]
+    inside = {id(n) for n in ast.walk(main)}
+    if not inits or not all(empty(n.value) for n in inits) or not any(id(n) not in inside for n in inits):
+        return None                          # (that it is emptied once per word is rule step-tokens/buffer-reset)
+    return InlineDecoder(fn, main, acc, letter, has_last)
+
+
 def _factors(e):
     if isinstance(e, ast.BinOp) and isinstance(e.op, ast.Mult):
         return _factors(e.left) + _factors(e.right)
     return [e]
 
 
-def loop_weight(cf: ast.FunctionDef, lp: ast.For, ms_name: str):
+def loop_weight(cf: ast.FunctionDef, lp: ast.For, ms_name: str, within=None):
     """place value given to the high digit read in iteration i of `lp`, by induction-variable analysis of the loop:
     the accumulated product <ms>[letter] * f1 * f2 .. with every other factor a constant, a power 5 ** e (pow(5, e)) of a counter
     e = a + s*i (an `enumerate` index, or a local set before the loop and stepped once per iteration), or a running product
@@ -86,7 +162,8 @@ def loop_weight(cf: ast.FunctionDef, lp: ast.For, ms_name: str):
     def before_loop(name):
         defs = [n for n in ast.walk(cf) if isinstance(n, (ast.Assign, ast.AnnAssign)) and n.value is not None
                 and isinstance(n.targets[0] if isinstance(n, ast.Assign) else n.target, ast.Name)
-                and (n.targets[0] if isinstance(n, ast.Assign) else n.target).id == name and n.lineno < lp.lineno]
+                and (n.targets[0] if isinstance(n, ast.Assign) else n.target).id == name and n.lineno < lp.lineno
+                and (within is None or any(n is x for x in ast.walk(within)))]
         stores_in = [n for n in ast.walk(lp) if isinstance(n, ast.Name) and n.id == name and isinstance(n.ctx, ast.Store)]
         return (const_int(defs[-1].value) if defs else None), stores_in
 
@@ -176,6 +253,21 @@ def digit_tables(ctx, py: PyRepo, fn: ast.FunctionDef):
                facts={'entries': len(pairs)})
     # the decoder uses them with the specified weights: n = ls + sum ms_i * 5^i * 20
     conv = find_decoder(py, fn, set(names.values()))
+    if not conv:
+        inl = find_inline_decoder(fn, names)
+        ctx.require(inl is not None, 'anchor vanished: the function that decodes one word with both digit tables (convert_to_number), '
+                                     'or the same arithmetic written in place in the loop over the proof letters')
+        loops_ = [n for n in ast.walk(inl.loop) if isinstance(n, ast.For) and n is not inl.loop
+                  and any(isinstance(x, ast.Subscript) and isinstance(x.value, ast.Name) and x.value.id == names['most-significant'] for x in ast.walk(n))]
+        ok, why_w = False, ''
+        if len(loops_) == 1:
+            lw = loop_weight(fn, loops_[0], names['most-significant'], within=inl.loop)
+            if lw is not None:
+                C, A, S = lw
+                ok = S == 1 and A >= 0 and C * 5 ** A == 20
+                why_w = f' (iteration i gives the digit the weight {C} * 5^({A} + {S}*i))'
+        ctx.ob('digit-table', 'weights', ok, 'the word decoder does not weight the high digits by 20 * 5^i' + why_w, py.where(MODULE, inl.loop))
+        return names, inl
     ctx.require(len(conv) == 1, 'anchor vanished: the function that decodes one word with both digit tables (convert_to_number)')
     ok = False
     why_w = ''
@@ -400,30 +492,57 @@ def label_table_fresh(ctx, py: PyRepo, fn, ci, sites):
     # its nested functions).  When that name is a parameter of a nested function, the table is what the callers pass for it.
     n = 0
     nested = [x for x in ast.walk(fn) if isinstance(x, ast.FunctionDef)]
+    # innermost enclosing function: the last assignment wins when walking outermost-first
+    parent_fn = {}
+    for f_ in nested:                                # ast.walk is breadth-first: outer functions come before inner ones
+        for g in ast.walk(f_):
+            if isinstance(g, ast.FunctionDef) and g is not f_:
+                parent_fn[id(g)] = f_
+
+    def own_nodes(sc):
+        inner = {id(x) for g in ast.walk(sc) if isinstance(g, ast.FunctionDef) and g is not sc for x in ast.walk(g)}
+        return [x for x in ast.walk(sc) if id(x) not in inner]
+
+    def binds(sc, name):
+        """'param' | 'local' | None (free in sc)"""
+        if name in [a.arg for a in sc.args.args + sc.args.kwonlyargs]:
+            return 'param'
+        for x in own_nodes(sc):
+            if isinstance(x, ast.Name) and x.id == name and isinstance(x.ctx, ast.Store):
+                return 'local'
+        return None
+
+    seen = set()
     for sc in nested:
-        params = [a.arg for a in sc.args.args]
-        stored = {t.value.id for st in ast.walk(sc) if isinstance(st, ast.Assign) for t in st.targets
+        stored = {t.value.id for st in own_nodes(sc) if isinstance(st, ast.Assign) for t in st.targets
                   if isinstance(t, ast.Subscript) and isinstance(t.value, ast.Name)}
-        # only the scope's own stores (a nested def is handled as its own scope)
-        inner = {t.value.id for g in ast.walk(sc) if isinstance(g, ast.FunctionDef) and g is not sc for st in ast.walk(g)
-                 if isinstance(st, ast.Assign) for t in st.targets if isinstance(t, ast.Subscript) and isinstance(t.value, ast.Name)}
-        for name in sorted(stored - inner if sc is fn else stored):
-            if name in params and sc is not fn:
-                k = params.index(name)
+        for name in sorted(stored):
+            # lexical scoping: a free name is the binding of the nearest enclosing function
+            home = sc
+            while binds(home, name) is None and id(home) in parent_fn:
+                home = parent_fn[id(home)]
+            kind = binds(home, name)
+            if kind is None or (id(home), name) in seen:
+                continue
+            seen.add((id(home), name))
+            if kind == 'param' and home is not fn:
+                k = [a.arg for a in home.args.args].index(name) if name in [a.arg for a in home.args.args] else None
+                if k is None:
+                    continue
                 for caller in nested:
                     for c in ast.walk(caller):
-                        if isinstance(c, ast.Call) and isinstance(c.func, ast.Name) and c.func.id == sc.name and len(c.args) > k:
+                        if isinstance(c, ast.Call) and isinstance(c.func, ast.Name) and c.func.id == home.name and len(c.args) > k:
                             n += 1
                             ctx.ob('hypothesis-order', 'label-table-fresh', fresh(c.args[k], caller),
-                                   f'the table `{ast.unparse(c.args[k])}` that {sc.name} extends with the proof\'s labels is not an object created for '
+                                   f'the table `{ast.unparse(c.args[k])}` that {home.name} extends with the proof\'s labels is not an object created for '
                                    f'this proof (a cached / shared dict): a second proof over the same variables inherits the labels of the first and '
                                    f'every number after the hypotheses denotes the wrong thing', py.where('metamath.converter.converter', c))
-            elif name not in params:
+            elif kind == 'local':
                 n += 1
-                ctx.ob('hypothesis-order', 'label-table-fresh', fresh(ast.Name(id=name, ctx=ast.Load()), sc),
-                       f'the table `{name}` that {sc.name} fills with the proof\'s hypotheses and labels is not an object created for this proof '
+                ctx.ob('hypothesis-order', 'label-table-fresh', fresh(ast.Name(id=name, ctx=ast.Load()), home),
+                       f'the table `{name}` that {home.name} fills with the proof\'s hypotheses and labels is not an object created for this proof '
                        f'(a cached / shared dict): a second proof over the same variables inherits the labels of the first and every number '
-                       f'after the hypotheses denotes the wrong thing', py.where('metamath.converter.converter', sc))
+                       f'after the hypotheses denotes the wrong thing', py.where('metamath.converter.converter', home))
     ctx.require(n >= 1, '_import_proof: the table that receives the hypothesis numbers and the listed labels was not found')
 
 
@@ -477,8 +596,14 @@ def digit_order(ctx, py: PyRepo, fn: ast.FunctionDef, names, cf):
     """positional weights of the decoder: the LAST letter of a word is the least-significant (A..T) digit, and the preceding U..Y
     letters are base-5 digits whose weight grows from right to left (exponent 0 next to the last letter).  Decided from the
     direction in which the high digits are traversed and the direction in which the exponent counts."""
-    where = py.where('metamath.converter.converter', cf)
-    word = cf.args.args[0].arg
+    inline = cf if isinstance(cf, InlineDecoder) else None
+    if inline is not None:
+        where = py.where('metamath.converter.converter', inline.loop)
+        word = None
+        cf = inline.loop                     # the scope searched for definitions: the body of the loop over the proof letters
+    else:
+        where = py.where('metamath.converter.converter', cf)
+        word = cf.args.args[0].arg
 
     use_line = [10 ** 9]
 
@@ -488,6 +613,9 @@ def digit_order(ctx, py: PyRepo, fn: ast.FunctionDef, names, cf):
             return None
         if isinstance(e, ast.Name) and e.id == word:
             return ('fwd', False)
+        if inline is not None and isinstance(e, ast.Name) and e.id == inline.acc:
+            # the letters collected so far, in reading order; without the closing letter when it is never appended
+            return ('fwd', not inline.acc_has_last)
         if isinstance(e, ast.Call) and isinstance(e.func, ast.Name) and e.func.id in ('list', 'tuple', 'iter') and e.args:
             return direction(e.args[0], depth + 1)
         if isinstance(e, ast.Call) and isinstance(e.func, ast.Name) and e.func.id == 'reversed' and e.args:
@@ -535,6 +663,8 @@ def digit_order(ctx, py: PyRepo, fn: ast.FunctionDef, names, cf):
 
     def single_letter(name):
         """which letter of the word a scalar name holds: 'last' | 'first' | None"""
+        if inline is not None and name == inline.letter:
+            return 'last'                    # the loop variable where the A..T table is consulted closes the word
         for n in ast.walk(cf):
             if isinstance(n, ast.Assign) and isinstance(n.targets[0], ast.Tuple) and len(n.targets[0].elts) == 2:
                 a, b = n.targets[0].elts
@@ -549,7 +679,7 @@ def digit_order(ctx, py: PyRepo, fn: ast.FunctionDef, names, cf):
                 if isinstance(b, ast.Name) and b.id == name and isinstance(a, ast.Starred):      # *rest, x = seq
                     return 'last' if d[0] == 'fwd' else 'first'
             if isinstance(n, ast.Assign) and isinstance(n.targets[0], ast.Name) and n.targets[0].id == name \
-                    and isinstance(n.value, ast.Subscript) and ast.unparse(n.value.value) == word:
+                    and isinstance(n.value, ast.Subscript) and ast.unparse(n.value.value) == (word if inline is None else (inline.acc if inline.acc_has_last else None)):
                 idx = ast.unparse(n.value.slice)
                 return {'-1': 'last', '0': 'first'}.get(idx)
         return None
@@ -561,7 +691,7 @@ def digit_order(ctx, py: PyRepo, fn: ast.FunctionDef, names, cf):
         sl = ls_uses[0].slice
         if isinstance(sl, ast.Name):
             ok_ls = single_letter(sl.id) == 'last'
-        elif isinstance(sl, ast.Subscript) and ast.unparse(sl.value) == word:
+        elif isinstance(sl, ast.Subscript) and ast.unparse(sl.value) == (word if inline is None else (inline.acc if inline.acc_has_last else None)):
             ok_ls = ast.unparse(sl.slice) == '-1'
     ctx.ob('digit-order', 'least-significant-is-last-letter', ok_ls,
            'the A..T digit must be taken from the LAST letter of the word', where)
@@ -588,7 +718,7 @@ def digit_order(ctx, py: PyRepo, fn: ast.FunctionDef, names, cf):
                f'{len(table)} high digits loses its leading digits without an error, so every step number above {largest} decodes to a '
                f'smaller one (the property covers at least 10^6)', where, facts={'entries': len(table), 'largest decodable': largest})
         return
-    loops = [n for n in ast.walk(cf) if isinstance(n, ast.For)]
+    loops = [n for n in ast.walk(cf) if isinstance(n, ast.For) and n is not cf]
     ctx.require(len(loops) == 1, 'convert_to_number: expected one loop over the high digits')
     lp = loops[0]
     it = lp.iter
@@ -596,7 +726,7 @@ def digit_order(ctx, py: PyRepo, fn: ast.FunctionDef, names, cf):
     seq = it
     if isinstance(it, ast.Call) and isinstance(it.func, ast.Name) and it.func.id == 'enumerate' and it.args:
         seq = it.args[0]
-    lw = loop_weight(cf, lp, names['most-significant'])
+    lw = loop_weight(inline.fn if inline is not None else cf, lp, names['most-significant'], within=inline.loop if inline is not None else None)
     if lw is not None and lw[2] != 0:
         exp_dir = 'asc' if lw[2] > 0 else 'desc'
     use_line[0] = lp.lineno
@@ -605,6 +735,33 @@ def digit_order(ctx, py: PyRepo, fn: ast.FunctionDef, names, cf):
     if d is None or exp_dir is None:
         from ..core.report import AnalysisError as _AE
         raise _AE(f'convert_to_number: cannot determine the traversal direction of `{ast.unparse(seq)}` or of the exponent')
+    # the number is exactly <ls>[last letter] + the weighted high digits: the variable the loop accumulates into starts as the
+    # plain table entry and is what the decoder hands back
+    scope = inline.loop if inline is not None else cf
+    accs = [st.target.id if isinstance(st, ast.AugAssign) else st.targets[0].id for st in lp.body
+            if (isinstance(st, ast.AugAssign) and isinstance(st.op, ast.Add) and isinstance(st.target, ast.Name)
+                or isinstance(st, ast.Assign) and len(st.targets) == 1 and isinstance(st.targets[0], ast.Name) and isinstance(st.value, ast.BinOp))
+            and any(isinstance(x, ast.Subscript) and isinstance(x.value, ast.Name) and x.value.id == names['most-significant'] for x in ast.walk(st.value))]
+    if len(accs) == 1:
+        num = accs[0]
+        inits = [n for n in ast.walk(scope) if isinstance(n, (ast.Assign, ast.AnnAssign)) and n.value is not None and not any(n is x for x in ast.walk(lp))
+                 and isinstance(n.targets[0] if isinstance(n, ast.Assign) else n.target, ast.Name)
+                 and (n.targets[0] if isinstance(n, ast.Assign) else n.target).id == num]
+        init_ok = len(inits) == 1 and isinstance(inits[0].value, ast.Subscript) and isinstance(inits[0].value.value, ast.Name) \
+            and inits[0].value.value.id == names['least-significant'] and inits[0].lineno < lp.lineno
+        other = [n for n in ast.walk(scope) if isinstance(n, ast.AugAssign) and isinstance(n.target, ast.Name) and n.target.id == num
+                 and not any(n is x for x in ast.walk(lp))]
+        if inline is None:
+            rets = [r for r in ast.walk(cf) if isinstance(r, ast.Return)]
+            out_ok = bool(rets) and all(isinstance(r.value, ast.Name) and r.value.id == num for r in rets)
+        else:
+            outs = [c for c in ast.walk(scope) if isinstance(c, ast.Call) and isinstance(c.func, ast.Attribute) and c.func.attr == 'append'
+                    and any(isinstance(x, ast.Name) and x.id == num for a in c.args for x in ast.walk(a))]
+            out_ok = len(outs) == 1 and isinstance(outs[0].args[0], ast.Name)
+        ctx.ob('digit-order', 'number-is-low-digit-plus-high-digits', init_ok and out_ok and not other,
+               f'the decoded number must be exactly `{names["least-significant"]}[<last letter>]` plus the weighted high digits: `{num}` is '
+               f'initialised as `{ast.unparse(inits[0].value) if inits else "?"}`' + (', adjusted outside the loop' if other else '')
+               + ('' if out_ok else ', and is not what the decoder hands back unchanged'), where)
     ok = d[0] == 'rev' and d[1] and exp_dir == 'asc'
     ctx.ob('digit-order', 'high-digits-weighted-right-to-left', ok,
            f'the U..Y digits are traversed {"left-to-right" if d[0] == "fwd" else "right-to-left"} while the exponent counts up from 0: '
@@ -744,7 +901,72 @@ def step_tokens(ctx, py: PyRepo, fn):
         probs = [p_ for p_ in (number_alt(a) for a in alts) if p_]
         ctx.ob('step-tokens', f're@{call.lineno - fn.lineno}', not probs,
                f'steps are cut out of the proof with {pat!r}: ' + '; '.join(probs), py.where('metamath.converter.converter', call))
-    ctx.ob('step-tokens', 'scan', True, f'{n} regular expressions over proof letters examined', '')
+    # the loop form: letters are collected into a buffer until a closing (A..T) letter; the buffer must be emptied on exactly
+    # the iterations that close a number - otherwise the next number carries the previous one's high digits (or loses its own).
+    # The collecting code is a region with a letter variable (a loop over the letters, or a method fed one letter at a time) and
+    # a buffer (a local, or an attribute of the object) extended by that letter; the closing test is `letter in <the A..T table>`
+    # (directly, or through an attribute the constructor binds to the table at every instantiation).
+    from ..core import astpaths as AP
+    tables = find_tables(py, fn)
+    ls_names = [nm for nm, v in tables.items() if len(v[0]) >= 10 or any(k == 'A' for k, _x in v[0])]
+    n_loops = 0
+    mi = py.modules['metamath.converter.converter']
+
+    def is_ls(x: str, ci) -> bool:
+        if len(ls_names) != 1:
+            return False
+        if x == ls_names[0]:
+            return True
+        m_ = re.fullmatch(r'self\.(\w+)', x)
+        if not m_ or ci is None or '__init__' not in ci.methods:
+            return False
+        init = ci.methods['__init__']
+        params = [a.arg for a in init.args.args][1:]
+        src = [ast.unparse(n.value) for n in ast.walk(init) if isinstance(n, (ast.Assign, ast.AnnAssign)) and n.value is not None
+               and ast.unparse(n.targets[0] if isinstance(n, ast.Assign) else n.target) == x]
+        if len(src) != 1 or src[0] not in params:
+            return False
+        k = params.index(src[0])
+        made = [c for c in ast.walk(mi.tree) if isinstance(c, ast.Call) and isinstance(c.func, ast.Name) and c.func.id == ci.name]
+        return bool(made) and all(len(c.args) > k and isinstance(c.args[k], ast.Name) and c.args[k].id == ls_names[0] for c in made)
+
+    regions = [(lp.target.id, lp.body, lp, None) for lp in ast.walk(fn) if isinstance(lp, ast.For) and isinstance(lp.target, ast.Name)]
+    for c in mi.classes.values():
+        for g in c.methods.values():
+            if g is not fn and len(g.args.args) == 2:
+                regions.append((g.args.args[1].arg, g.body, g, c))
+    for letter, body, node, ci in regions:
+        bufs = {ast.unparse(st.target) for st in ast.walk(node) if isinstance(st, ast.AugAssign) and isinstance(st.op, ast.Add)
+                and isinstance(st.target, (ast.Name, ast.Attribute)) and isinstance(st.value, ast.Name) and st.value.id == letter}
+        if len(bufs) != 1:
+            continue
+        buf = next(iter(bufs))
+        all_paths = AP.paths(body)
+        tests = {c_ for sp in all_paths for c_, _b in sp.conds if c_.startswith(f'{letter} in ') and is_ls(c_[len(letter) + 4:], ci)}
+        if len(tests) != 1:
+            continue
+        closing = next(iter(tests))
+        n_loops += 1
+        bad = []
+        for sp in all_paths:
+            if sp.end == 'raise':
+                continue
+            h = sp.holds(closing)
+            resets = [a for a in sp.actions if isinstance(a, (ast.Assign, ast.AnnAssign)) and a.value is not None
+                      and ast.unparse(a.targets[0] if isinstance(a, ast.Assign) else a.target) == buf]
+            collects = [a for a in sp.actions if isinstance(a, ast.AugAssign) and ast.unparse(a.target) == buf]
+            emptied = bool(resets) and isinstance(resets[-1].value, ast.Constant) and resets[-1].value.value == '' \
+                and not any(c_.lineno > resets[-1].lineno for c_ in collects)
+            if h is True and not emptied:
+                bad.append('the buffer is not emptied after a closing letter')
+            if h is False and resets:
+                bad.append('the buffer is emptied on a letter that does not close a number')
+        ctx.ob('step-tokens', f'buffer-reset@{getattr(node, "name", "loop")}', not bad,
+               f'`{buf}` collects the letters of one number: ' + '; '.join(sorted(set(bad)))
+               + ' - the next number would be decoded with the wrong high digits', py.where('metamath.converter.converter', node))
+    ctx.require(n + n_loops >= 1, 'anchor vanished: neither a regular expression over the proof letters nor a loop / method collecting '
+                                  'letters up to a closing A..T letter was found - how the proof string is cut into steps is not known')
+    ctx.ob('step-tokens', 'scan', True, f'{n} regular expressions over proof letters examined, {n_loops} letter-collecting loops', '')
 
 
 def identity_by_hash(ctx, py: PyRepo):
@@ -796,6 +1018,61 @@ def label_tokens(ctx, py: PyRepo, fn):
     ctx.ob('label-tokens', 'scan', True, f'{n} label loops over split() examined', '')
 
 
+def label_numbering(ctx, py: PyRepo, fn):
+    """the labels listed in parentheses are numbered consecutively after the mandatory hypotheses: the loop that registers them
+    (`T[k] = <label collected so far>`) starts at k = len(T) + 1, and every iteration that registers a label advances k by one and
+    starts a new label; an iteration that registers nothing leaves k alone"""
+    from ..core import astpaths as AP
+    n = 0
+    scopes = [g for g in ast.walk(fn) if isinstance(g, ast.FunctionDef)]
+    for sc in scopes:
+        inner = {id(x) for g in ast.walk(sc) if isinstance(g, ast.FunctionDef) and g is not sc for x in ast.walk(g)}
+        for lp in [x for x in ast.walk(sc) if isinstance(x, ast.For) and id(x) not in inner]:
+            stores = [st for st in ast.walk(lp) if isinstance(st, ast.Assign) and len(st.targets) == 1 and isinstance(st.targets[0], ast.Subscript)
+                      and isinstance(st.targets[0].value, ast.Name) and isinstance(st.targets[0].slice, ast.Name) and isinstance(st.value, ast.Name)]
+            if len(stores) != 1:
+                continue
+            T, K, B = stores[0].targets[0].value.id, stores[0].targets[0].slice.id, stores[0].value.id
+            # B is a text buffer extended letter by letter in this loop
+            if not any(isinstance(a, ast.AugAssign) and isinstance(a.target, ast.Name) and a.target.id == B and isinstance(a.op, ast.Add) for a in ast.walk(lp)):
+                continue
+            n += 1
+            where = py.where('metamath.converter.converter', lp)
+            inits = [a for a in ast.walk(sc) if id(a) not in inner and isinstance(a, (ast.Assign, ast.AnnAssign)) and a.value is not None
+                     and isinstance(a.targets[0] if isinstance(a, ast.Assign) else a.target, ast.Name)
+                     and (a.targets[0] if isinstance(a, ast.Assign) else a.target).id == K and a.lineno < lp.lineno]
+            init = max(inits, key=lambda a: a.lineno).value if inits else None
+            ok_init = isinstance(init, ast.BinOp) and isinstance(init.op, ast.Add) and \
+                sorted([ast.unparse(init.left), ast.unparse(init.right)]) == sorted([f'len({T})', '1'])
+            ctx.ob('hypothesis-order', 'label-numbering/starts-after-the-hypotheses', ok_init,
+                   f'the listed labels are numbered from `{ast.unparse(init) if init is not None else "?"}`; they must continue after the '
+                   f'mandatory hypotheses already in `{T}` (len({T}) + 1), or every label number is off', where)
+            bad = []
+            for sp in AP.paths(lp.body):
+                if sp.end == 'raise':
+                    continue
+                st_at = [i for i, a in enumerate(sp.actions) if a is stores[0]]
+                incs = [i for i, a in enumerate(sp.actions) if isinstance(a, ast.AugAssign) and isinstance(a.target, ast.Name) and a.target.id == K]
+                other = [a for a in sp.actions if isinstance(a, (ast.Assign, ast.AnnAssign)) and a is not stores[0]
+                         and ast.unparse(a.targets[0] if isinstance(a, ast.Assign) else a.target) == K]
+                resets = [i for i, a in enumerate(sp.actions) if isinstance(a, ast.Assign) and ast.unparse(a.targets[0]) == B
+                          and isinstance(a.value, ast.Constant) and a.value.value == '']
+                if other:
+                    bad.append(f'`{K}` is re-bound inside the loop')
+                elif st_at:
+                    one = len(incs) == 1 and incs[0] > st_at[0] and isinstance(sp.actions[incs[0]].op, ast.Add) \
+                        and ast.unparse(sp.actions[incs[0]].value) == '1'
+                    if not one:
+                        bad.append(f'`{K}` is not advanced by exactly one after a label is registered')
+                    if sp.end != 'break' and not (resets and resets[-1] > st_at[0]):
+                        bad.append(f'`{B}` is not emptied after a label is registered')
+                elif incs:
+                    bad.append(f'`{K}` is advanced on an iteration that registers no label')
+            ctx.ob('hypothesis-order', 'label-numbering/consecutive', not bad,
+                   'the listed labels must get consecutive numbers: ' + '; '.join(sorted(set(bad))), where)
+    return n
+
+
 def run(ctx):
     py = PyRepo.get()
     ci = py.cls('MetamathConverter')
@@ -811,6 +1088,7 @@ def run(ctx):
     ctx.ob('hypothesis-order', 'ordered-source-is-a-list', ann_ok,
            f'self.{ORDERED_ATTR} must be a list (insertion = database order)', py.where('metamath.converter.converter', init))
     label_tokens(ctx, py, fn)
+    label_numbering(ctx, py, fn)
     step_tokens(ctx, py, fn)
     identity_by_hash(ctx, py)
     # where the numbers past the label list are resolved: the k-th Z opens the k-th slot, number n reloads slot n - len(labels) - 1
